@@ -566,7 +566,7 @@ def reach_floor(ctx, names):
     """generator rot is a machinery failure: every construct the check was built to reach must still be reached"""
     missing = [n for n in names if ctx.stats.get(n, 0) == 0]
     ctx.extra.setdefault('coverage', {})['reach'] = dict((n, ctx.stats.get(n, 0)) for n in names)
-    if missing and not ctx.searching and ctx.time_left() > 100:
+    if missing and not ctx.searching and ctx.time_left() > 100 and not (ctx.violations or ctx.broken or ctx.disagreements):
         raise common.MachineryError('generator no longer reaches: %s' % ', '.join(missing))
 
 
